@@ -12,6 +12,8 @@ Inductive trap_kind :=
 | TMidSend        (* dies after writing part of the result message *)
 | TAfterSend      (* dies after the whole result message was written *)
 | TAfterSendSeen  (* same, and the manager thread handles the death before any other result arrives *)
+| TDieBusy        (* dies (no byte of its result written) while the manager thread is busy handling another
+                     message, i.e. not in wait() *)
 | TGarbage        (* returns bytes that do not unpickle in the parent *)
 | TBadArgs.       (* (at Take) the call item does not unpickle in the worker *)
 
@@ -59,6 +61,9 @@ Definition finish (p : nat) (d : dstate) : dstate :=
     | WBusy id =>
       match trap_of d e id with
       | Some TDie | Some TBadArgs => mkD (pstep (dpool d) (Ex (Die p))) (traps d) (p :: killed d) (seen d) (masked d)
+      | Some TDieBusy =>
+        let d1 := dex d ManagerWake in       (* the manager leaves wait() for whatever is ready ... *)
+        mkD (pstep (dpool d1) (Ex (Die p))) (traps d) (p :: killed d) (seen d) (masked d)   (* ... and the worker dies meanwhile *)
       | Some TMidSend => mkD (pstep (dpool d) (Ex (DieMidSend p))) (traps d) (p :: killed d) (seen d) (masked d)
       | Some TAfterSend =>
         mkD (pstep (pstep (dpool d) (Ex (Result p (Z.of_nat id)))) (Ex (Die p))) (traps d) (p :: killed d) (seen d) (masked d)
